@@ -1,7 +1,7 @@
 (** Meta-theory of the fuelled evaluator: bind inversion, fuel monotonicity,
     output/input growth, error absorption, diagnostic lines, containment of
     loop signals, skipping after a signal. *)
-From Borno Require Import Base Num Unicode Token Ast Value Eval EvalEqs.
+From Borno Require Import Base Num Unicode Token Lexer Ast Parser Value Eval Cli EvalEqs.
 Open Scope N_scope.
 
 (* ------------------------------------------------------------------ *)
@@ -668,6 +668,12 @@ Proof.
     destruct sg; try exact H. apply IH; assumption.
 Qed.
 
+(** the same, in the literal form [f + 0] *)
+Corollary exec_list_skips_after_signal_plus0 repl f ss1 ss2 rho s sig s' :
+  exec_list f repl ss1 rho s = Ok sig s' -> sig <> SigNone ->
+  exec_list (f + 0) repl (ss1 ++ ss2) rho s = Ok sig s'.
+Proof. intros H N. rewrite Nat.add_0_r. eapply exec_list_skips_after_signal; eassumption. Qed.
+
 (** a statement list that ran to its end hands its state to what follows (given enough fuel) *)
 Lemma exec_list_app_le repl ss2 rho : forall ss1 f g s s1,
   exec_list f repl ss1 rho s = Ok SigNone s1 ->
@@ -1024,6 +1030,37 @@ Proof.
     + inversion H; subst. exists [], st, p, s. split; [reflexivity|]. split; [reflexivity|].
       split; [|exact G]. right. exists (SigReturn l rv). auto.
 Qed.
+
+(* ------------------------------------------------------------------ *)
+(** * The same facts at the level of the command-line driver *)
+
+(** A script run that ends with a runtime error: the front end accepted the text,
+    the program's statements failed with exactly this diagnostic, everything
+    printed so far is kept, and the process reports the one diagnostic with
+    status 70. *)
+Theorem run_source_runtime fuel repl src stdin e l s :
+  run_source libm clock sched fuel repl src stdin = RRuntime e l s ->
+  exists prog,
+    pr_prog (parse (lx_tokens (lex src)) (lx_eof_line (lex src))) = Some prog /\
+    run_stmts fuel repl prog (init_state stdin) = Err e l s /\
+    (exists k, stdin = k ++ inp s) /\
+    (forall q, run_stmts fuel repl (prog ++ q) (init_state stdin) = Err e l s).
+Proof.
+  unfold run_source. intros H.
+  destruct (pr_fuel_out (parse (lx_tokens (lex src)) (lx_eof_line (lex src)))); [discriminate H|].
+  destruct (lx_diags (lex src)); [|discriminate H].
+  destruct (pr_diags (parse (lx_tokens (lex src)) (lx_eof_line (lex src)))); [|discriminate H].
+  destruct (pr_prog (parse (lx_tokens (lex src)) (lx_eof_line (lex src)))) as [prog|]; [|discriminate H].
+  destruct (run_stmts fuel repl prog (init_state stdin)) as [u s0|e0 l0 s0| | |s0] eqn:R; inversion H; subst.
+  exists prog. split; [reflexivity|]. split; [exact R|]. split.
+  - destruct (out_grows_run_err _ _ _ _ _ _ _ R) as (_ & K). exact K.
+  - intros q. apply run_suffix_irrelevant; exact R.
+Qed.
+
+Theorem run_file_runtime fuel src stdin e l s :
+  run_source libm clock sched fuel false src stdin = RRuntime e l s ->
+  run_file libm clock sched fuel src stdin = PExit (mkProc (rev (out s)) [DRuntime e l] 70).
+Proof. intros H. unfold run_file. rewrite H. reflexivity. Qed.
 
 End Meta.
 
